@@ -244,10 +244,7 @@ func (c *SpecCtx) eval(n *SNode) Val {
 			}
 			decl = append(decl, fmt.Sprintf("(%s %s)", q(vn), cs[0].Sort))
 			nb[sv.Name] = scalar(t, q(vn))
-			if _, isPtr := t.Underlying().(*types.Pointer); isPtr {
-				// quantified references range over allocated objects (non-nil)
-				facts = append(facts, and(sx("<", "0", q(vn)), sx("<=", q(vn), c.heap.alloc)))
-			}
+			// note: quantified references range over all values; use allocated(q) to restrict
 		}
 		c.bound = nb
 		body := c.evalBool(n.Args[0])
@@ -499,7 +496,12 @@ func (c *SpecCtx) evalCall(n *SNode) Val {
 		if len(n.Args) != 1 {
 			panic(specErr("unchanged takes one Type.field argument"))
 		}
-		item := snodePath(n.Args[0])
+		var item string
+		if a := n.Args[0]; a.Op == "call" && (a.Name == "elems" || a.Name == "map") {
+			item = a.Name + "(" + a.Args[0].Src2() + ")"
+		} else {
+			item = snodePath(a)
+		}
 		var es []string
 		for _, ns := range e.heapNamesUnder(c.pkg, item) {
 			es = append(es, eq(e.harr(c.heap, ns[0], ns[1]), e.harr(c.old, ns[0], ns[1])))
@@ -526,6 +528,9 @@ func (c *SpecCtx) evalCall(n *SNode) Val {
 	}
 	// predicate (macro)
 	pd := e.P.Preds[c.pkg+"."+n.Name]
+	if strings.Contains(n.Name, ".") {
+		pd = e.P.Preds[n.Name]
+	}
 	if pd == nil {
 		for _, cand := range e.P.Preds {
 			if cand.Name == n.Name {
@@ -601,3 +606,18 @@ func (c *SpecCtx) findIter() string {
 }
 
 var _ = constant.MakeBool
+
+// Src2 renders a type-like spec node back to text (for elems(T)/map(T) arguments).
+func (n *SNode) Src2() string {
+	switch n.Op {
+	case "ident":
+		return n.Name
+	case "sel":
+		return n.Args[0].Src2() + "." + n.Name
+	case "un":
+		if n.Name == "*" {
+			return "*" + n.Args[0].Src2()
+		}
+	}
+	panic(specErr("type expression expected"))
+}
